@@ -273,6 +273,12 @@ fn versions() -> Vec<Version> {
     let forged9 = ScratchpadMirror::build(owner_pk, 9, &sealed(b"evil"), Some(&bls_sk(ATTACKER)));
     // a scratchpad that is valid for the attacker's own key, returned under the requested key
     let foreign9 = ScratchpadMirror::build(bls_sk(ATTACKER).public_key(), 9, &sealed(b"evil-foreign"), Some(&bls_sk(ATTACKER)));
+    // forgeries that *tie* with an authentic counter, and records whose header names another kind (the network layer
+    // gives up on a split whose first record is of another kind, which hands the raw split to the client)
+    let forged2 = ScratchpadMirror::build(owner_pk, 2, &sealed(b"evil-2"), Some(&bls_sk(ATTACKER)));
+    let m3 = ScratchpadMirror::from_real(&v3);
+    let unsigned3 = ScratchpadMirror { signature: None, encrypted_data: Bytes::from(sealed(b"evil-3")), ..clone_mirror(&m3) }.into_real();
+    let as_chunk_kind = |p: &Scratchpad| record(key.clone(), try_serialize_record(p, RecordKind::Chunk).unwrap());
     let mut out = vec![
         Version { name: "v1", record: under_key(&v1), authentic: Some((1, b"one")), is_pad: true, plaintext: b"one" },
         Version { name: "v2", record: under_key(&v2), authentic: Some((2, b"two")), is_pad: true, plaintext: b"two" },
@@ -282,12 +288,16 @@ fn versions() -> Vec<Version> {
         Version { name: "replayed-signature-9", record: under_key(&replay9), authentic: None, is_pad: true, plaintext: b"one" },
         Version { name: "forged-9 (signed by another key)", record: under_key(&forged9), authentic: None, is_pad: true, plaintext: b"evil" },
         Version { name: "foreign-9 (another owner's valid pad)", record: under_key(&foreign9), authentic: None, is_pad: true, plaintext: b"evil-foreign" },
+        Version { name: "forged-2 (ties with v2)", record: under_key(&forged2), authentic: None, is_pad: true, plaintext: b"evil-2" },
+        Version { name: "forged-2 under a chunk header", record: as_chunk_kind(&forged2), authentic: None, is_pad: false, plaintext: b"evil-2" },
+        Version { name: "unsigned-3 under a chunk header", record: as_chunk_kind(&unsigned3), authentic: None, is_pad: false, plaintext: b"evil-3" },
+        Version { name: "v3 under a chunk header", record: as_chunk_kind(&v3), authentic: Some((3, b"three")), is_pad: false, plaintext: b"three" },
         Version { name: "garbage", record: record(key.clone(), Bytes::from_static(&[0xff, 0x00, 0x13, 0x37])), authentic: None, is_pad: false, plaintext: b"" },
         Version { name: "a chunk record", record: record(key.clone(), try_serialize_record(&chunk(b"not a pad"), RecordKind::Chunk).unwrap()), authentic: None, is_pad: false, plaintext: b"" },
     ];
     // sanity of the fixtures against the real type
     for v in out.iter_mut() {
-        if v.is_pad {
+        if v.is_pad || v.name.ends_with("chunk header") {
             let p: Scratchpad = ant_protocol::storage::try_deserialize_record(&v.record).expect("fixture decodes");
             let really = p.is_valid() && *p.owner() == owner_pk && *p.address() == ant_protocol::storage::ScratchpadAddress::new(owner_pk);
             assert_eq!(really, v.authentic.is_some(), "fixture {} authenticity", v.name);
@@ -311,7 +321,9 @@ fn result_map_in_order(order: &[&Version], run: &Run) -> HashMap<XorName, (Recor
 fn judge_vault(run: &Run, delivered: &[&Version], how: &str, res: Option<Result<(Bytes, u64), String>>) {
     let names: Vec<&str> = delivered.iter().map(|v| v.name).collect();
     let desc = json!({"read": "fetch_and_decrypt_vault", "delivery": how, "versions": names});
-    let best = delivered.iter().filter_map(|v| v.authentic).map(|(c, _)| c).max();
+    // a validly signed pad under another kind's header is not a *version* the reader has to find (the network layer
+    // rightly treats it as a record of that other kind), but its content is authentic, so returning it is no violation
+    let best = delivered.iter().filter(|v| v.is_pad).filter_map(|v| v.authentic).map(|(c, _)| c).max();
     let only_pads = delivered.iter().all(|v| v.is_pad);
     run.outcome(format!("vault:{how}:{names:?}:{}", matches!(res, Some(Ok(_)))).as_bytes());
     match res {
@@ -327,7 +339,7 @@ fn judge_vault(run: &Run, delivered: &[&Version], how: &str, res: Option<Result<
                     format!("the vault read returned {:?}, the content of the version '{src}', which is not validly signed by the requested owner key (delivered {how}: {names:?})", String::from_utf8_lossy(&bytes)),
                     desc,
                 );
-            } else if best.map(|b| !from_authentic.contains(&b)).unwrap_or(false) {
+            } else if best.map(|b| from_authentic.iter().all(|c| *c < b)).unwrap_or(false) {
                 run.violation(
                     "vault-highest-counter",
                     "vault-lower-counter-returned",
@@ -412,8 +424,9 @@ pub fn main(tier: Option<&str>) {
         "chunk_get: 5 chunk contents x 4 other contents x 15 replies (the chunk; another chunk under the requested key / under its own key; bit flipped; truncated; \
          other kinds; header only; garbage; empty; not found; timeout; not-enough-copies / does-not-match / split carrying another chunk). data_get_public and data_get: \
          files of 3, 10, 100, 4096 bytes, each fetched chunk (data-map chunk and every content chunk) replaced in turn by the same position of another file / a bit flip / \
-         a sibling chunk / a content chunk in place of the data map, in every completion order of the concurrent fetches. fetch_and_decrypt_vault: 10 versions (authentic \
-         counters 1,2,3 and a fork at 2; unsigned / replayed-signature / forged / foreign at counter 9; garbage; a chunk record) delivered as one agreed record, inside \
+         a sibling chunk / a content chunk in place of the data map, in every completion order of the concurrent fetches. fetch_and_decrypt_vault: 14 versions (authentic \
+         counters 1,2,3 and a fork at 2; unsigned / replayed-signature / forged / foreign at counter 9; a forgery tying with counter 2; forged, unsigned and \
+         authentic pads under a chunk-kind header; garbage; a chunk record) delivered as one agreed record, inside \
          not-enough-copies, and as a split result of every subset of 2..=3(4) versions in every iteration order of the result map. Every case is non-trivial.",
     );
     run.assume("the reply alphabet is what get_record_from_network can hand the client; how holders' answers become an agreed / split result is C05's subject");
